@@ -63,6 +63,16 @@ def _apis():
     return _by_api
 
 
+_floaty = None
+
+
+def _float_classes() -> list[type]:
+    global _floaty
+    if _floaty is None:
+        _floaty = [c for c in universe.load() if "float64" in universe.features(c)]
+    return _floaty
+
+
 def choose_pool(rng, lo: int = 3, hi: int = 10) -> list[type]:
     apis = _apis()
     names = sorted(a for a in apis if a not in ("request_header", "response_header"))
@@ -92,8 +102,11 @@ def choose_pool(rng, lo: int = 3, hi: int = 10) -> list[type]:
     if rng.random() < 0.5:
         tagged = [c for c in universe.load() if universe.has_tagged_fields(c)]
         add(rng.choice(tagged))
+    if rng.random() < 0.2:
+        add(rng.choice(_float_classes()))
     rng.shuffle(pool)
-    return pool[:max(lo, want)]
+    pool = pool[:max(lo, want)]
+    return pool
 
 
 # ---- isolated goldens ------------------------------------------------------------
@@ -157,6 +170,11 @@ def make_workload(rng, stats=None, lo=3, hi=10, per_class=2) -> Workload:
             if shape["name"] == "big":
                 shape = gen.draw_shape(rng)
             ts.append(gen.to_tree(gen.gen_instance(rng, c, shape)))
+        if per_class >= 2 and gen.has_float(ts[0]) and rng.random() < 0.6:
+            # equal-but-differently-encoded twins (+0.0 / -0.0)
+            ts[0], ts[1] = gen.zero_twins(rng, ts[0])
+            if stats is not None:
+                stats.inc("probe_equal_valued_twin_instances")
         trees.append(ts)
     wl = Workload([universe.qualname(c) for c in pool], trees)
     wl.compute_goldens(stats)
